@@ -285,9 +285,20 @@ def _dotted(node) -> str:
 
 
 def _stmts(body, toplevel: bool, out: List[str], forms: Dict[str, int], defs: Dict[str, str], values: Dict[int, str],
-           scope: str) -> None:
+           scope: str, pd_only: bool = False) -> None:
+    """pd_only: the translation only has to be faithful for pydoctor's visitor (which walks every branch of a `try` in
+    source order and makes an Attribute of any simple assignment): used for the re-export scenarios, never for `pyimp`"""
     import ast
     for i, node in enumerate(body):
+        if pd_only and isinstance(node, ast.Try):
+            _stmts(node.body + [x for h in node.handlers for x in h.body] + node.orelse + node.finalbody,
+                   toplevel, out, forms, defs, values, scope, pd_only)
+            forms["try"] = forms.get("try", 0) + 1
+            continue
+        if pd_only and isinstance(node, ast.AnnAssign) and isinstance(node.target, ast.Name) and node.value is not None \
+                and isinstance(node.value, ast.Constant):
+            out.append("A|%s|0" % _enc(node.target.id))
+            continue
         if isinstance(node, ast.Expr) and isinstance(node.value, ast.Constant) and isinstance(node.value.value, str):
             continue                                  # docstring / attribute docstring: binds nothing
         if isinstance(node, ast.Pass):
@@ -315,11 +326,13 @@ def _stmts(body, toplevel: bool, out: List[str], forms: Dict[str, int], defs: Di
             out.append("C|%s|%s" % (_enc(node.name), ",".join(_enc(b) for b in bases) or "-"))
             forms["class" + ("_with_bases" if bases else "")] = forms.get("class" + ("_with_bases" if bases else ""), 0) + 1
             defs[node.name] = scope + "." + node.name
-            _stmts(node.body, False, out, forms, defs, values, scope + "." + node.name)
+            _stmts(node.body, False, out, forms, defs, values, scope + "." + node.name, pd_only)
             out.append("}")
         elif isinstance(node, (ast.FunctionDef, ast.AsyncFunctionDef)):
             if node.decorator_list:
                 raise Unsupported("decorated function")
+            if any(isinstance(x, (ast.ClassDef, ast.Import, ast.ImportFrom)) for sub in node.body for x in ast.walk(sub)):
+                raise Unsupported("definitions inside a function")
             out.append("D|%s" % _enc(node.name))
             defs[node.name] = scope + "." + node.name
         elif isinstance(node, ast.Assign) and len(node.targets) == 1 and isinstance(node.targets[0], ast.Name):
@@ -340,7 +353,7 @@ def _stmts(body, toplevel: bool, out: List[str], forms: Dict[str, int], defs: Di
             raise Unsupported(type(node).__name__)
 
 
-def abstract_project(units: List[Unit]):
+def abstract_project(units: List[Unit], pd_only: bool = False):
     """(tokens, info) for the Lean `imports` / `pyimp` models, or raise Unsupported.
     info: {"forms": import-form histogram, "defs": definition name -> qualified site (only meaningful when
     names are unique), "values": int constant -> qualified site, "mods": [qualified names]}"""
@@ -351,5 +364,5 @@ def abstract_project(units: List[Unit]):
     values: Dict[int, str] = {}
     for u in units:
         toks.append("M|%s|%s" % (_enc(u.qname), "P" if u.is_package else "M"))
-        _stmts(ast.parse(u.source).body, True, toks, forms, defs, values, u.qname)
+        _stmts(ast.parse(u.source).body, True, toks, forms, defs, values, u.qname, pd_only)
     return toks, {"forms": forms, "defs": defs, "values": values, "mods": [u.qname for u in units]}
